@@ -418,6 +418,7 @@ class YP(object):
         """clears all defined atoms, variables, facts and rules."""
         self._atom_store = {}
         self._predicates_store = {}
+        self.ATOM_NIL = self.atom("[]")
         self._set_default_eval_context()
         self._set_builtin_predicates()
 
